@@ -96,7 +96,7 @@ Proof.
   pose proof (sync_write_element cfg beh Huni st2 (vt_execs cfg v1 c2) e l2 S2 El2 He) as H.
   cbv zeta in H. destruct H as [S3 [[q [Htr Hq]] [_ Hcells]]].
   assert (Hsz3 : ts_size (fst (write_element beh st2 e)) = ts_size st2).
-  { unfold write_element. cbn [fst]. destruct (advance_other (set_last st2 (Some e))) as (A & _). exact A. }
+  { unfold write_element. cbn [fst]. destruct (advance_other (set_last st2 (Some e)) (eg e)) as (A & _). exact A. }
   destruct (write_element beh st2 e) as [st3 c3] eqn:E3. cbn [fst snd] in *.
   rewrite vt_execs_app.
   assert (Hcur : ts_cur st2 = Some p) by (rewrite Hcur2; exact Hcur1).
